@@ -72,6 +72,10 @@ class ParamsGenerator:
 
     if model_qsvs is None:
       model_qsvs = {}
+    else:
+      # Materialization overwrites statistics (same-scale ops, fixed output
+      # ranges): work on a copy so the caller's calibration result is intact.
+      model_qsvs = copy.deepcopy(model_qsvs)
 
     op_codes = self.flatbuffer_model.operatorCodes
     for subgraph in self.flatbuffer_model.subgraphs:
